@@ -5,7 +5,7 @@ interleaving of the user, the submitter and the workers (each monitor call, queu
 file-system operation is one step), every job failure, every failure in head_object / allocate /
 rename, cancels at any point.
 -/
-import S3V.Lemmas.ProcPool6
+import S3V.Lemmas.ProcPool8
 
 namespace S3V.C19
 open S3V.ProcPool
@@ -157,9 +157,65 @@ theorem cancel_sticks (s s1 s2 : S) (ls : List Label) (t : Nat) (hc : step s (.c
     exact exc_run _ s2 ls hr t hnt (by simp [upd])
   · cases hc
 
-/-- **shutdown returns only after the submitter and every worker have exited** (they exit only by
-taking the shutdown signal, which is queued behind all requests / all jobs) -/
-theorem shutdown_waits_partial (s s' : S) (hs : step s .shutReturn = some s') :
+theorem run_qinv (s s' : S) (ls : List Label) (hI : Inv s) (h : QInv s) (hr : run s ls = some s') : QInv s' := by
+  induction ls generalizing s with
+  | nil => simp only [run, Option.some.injEq] at hr; exact hr ▸ h
+  | cons l ls ih =>
+    simp only [run] at hr
+    cases hs : step s l with
+    | none => simp [hs] at hr
+    | some s1 => simp only [hs] at hr; exact ih s1 (step_inv s s1 l hI hs) (qinv_step s s1 l hI h hs) hr
+
+/-- **shutdown waits for all downloads**: in every reachable state in which `shutdown()` has
+returned, every download that was submitted is done (and hence, by `file_state_at_done`, its file is
+complete and in place or its temporary file has been removed).  The argument is the FIFO order of
+the two queues: the submitter takes its shutdown signal only after every request, the workers are
+signalled only after the submitter has exited, and a worker takes a signal only when no job is
+left; the worker that counted a download's last job finalizes it before it can take anything else. -/
+theorem shutdown_waits (w : Nat) (ls : List Label) (s : S) (hr : run (S.init w) ls = some s)
+    (hsh : s.shut = .returned) (t : Nat) (ht : t < s.nt) : (s.t t).done = true := by
+  have hI := reachable_inv w ls s hr
+  have hQ := run_qinv _ s ls (init_inv w) (qinit w) hr
+  obtain ⟨hall, hw⟩ := hQ.s1 hsh
+  have hex : ∃ i, s.wpc i = .exited := ⟨0, hall 0 hw⟩
+  have hspc := hQ.w2b hex
+  have ti := hI.ti t
+  have hreq := (hQ.r3 hspc).2 t
+  have hwork := hQ.w3 hex t
+  have hsubne : (s.t t).sub ≠ .none := fun e => by have := ti.p0.mp e; omega
+  have hcr : s.reqQ.count (some t) = 0 := List.count_eq_zero_of_not_mem hreq
+  have hcw : s.workQ.count (some t) = 0 := List.count_eq_zero_of_not_mem hwork
+  have sl := hI.sl' t
+  cases hsub : (s.t t).sub with
+  | none => exact absurd hsub hsubne
+  | pending => have := ti.rq; rw [hcr, if_pos hsub] at this; cases this
+  | sizing => have := sl.1 hsub; rw [hspc] at this; cases this
+  | allocated => have := sl.2.1 hsub; rw [hspc] at this; cases this
+  | putting => have := sl.2.2.1 hsub; rw [hspc] at this; cases this
+  | failing => have := sl.2.2.2 hsub; rw [hspc] at this; cases this
+  | failedDone => exact ti.p10 hsub
+  | queuedAll =>
+    obtain ⟨hann, hq⟩ := ti.p7 hsub
+    have hH : s.cnt (holds t) = 0 := by
+      apply cntW_zero_of_all
+      intro i hi; rw [hall i hi]; rfl
+    have hF : s.cnt (isFin t) = 0 := by
+      apply cntW_zero_of_all
+      intro i hi; rw [hall i hi]; rfl
+    have a := ti.a
+    have q := ti.q
+    have f := ti.f
+    rw [hcw] at q
+    rw [hH] at a
+    have hacc : (s.t t).accounted = (s.t t).n := by omega
+    cases hd : (s.t t).done
+    · have h1 : ¬((s.t t).done = true ∧ (s.t t).announced = true) := by simp [hd]
+      have h2 : (s.t t).announced = true ∧ (s.t t).accounted = (s.t t).n := ⟨hann, hacc⟩
+      rw [hF, if_neg h1, if_pos h2] at f; omega
+    · rfl
+
+/-- the guard itself: `shutdown()` returns only after the submitter and every worker have exited -/
+theorem shutdown_waits_guard (s s' : S) (hs : step s .shutReturn = some s') :
     allWorkersExited s = true ∧ ∃ k, s.shut = .signalling k ∧ k = s.w := by
   simp only [step] at hs
   split at hs
@@ -175,6 +231,11 @@ example : (run (S.init 2) [.download 2, .subTake, .subAlloc, .subAnnounce, .subP
       .wFinCheck 1, .wRename 1 true, .wDone 1]).map
       (fun s => ((s.t 0).done, (s.t 0).renamed, (s.t 0).temp, (s.t 0).written, (s.t 0).accounted)) =
     some (true, true, false, 2, 2) := by decide
+
+/-- a run in which shutdown returns (the hypothesis of `shutdown_waits` is satisfiable) -/
+example : (run (S.init 1) [.download 1, .shutBegin, .subTake, .subAlloc, .subAnnounce, .subPut, .subTake, .shutSignal,
+      .wTake 0, .wCheck 0, .wWrite 0, .wDec 0, .wFinCheck 0, .wRename 0 true, .wDone 0, .wTake 0, .shutReturn]).map
+      (fun s => (decide (s.shut = .returned), (s.t 0).done, s.nt)) = some (true, true, 1) := by decide
 
 /-- and one where a cancel arrives between the two jobs: the temporary file is removed -/
 example : (run (S.init 1) [.download 2, .subTake, .subAlloc, .subAnnounce, .subPut, .subPut,
